@@ -6,7 +6,7 @@ from contracts import core as K
 ID = "C12"
 LEVEL = "proof"
 TRUSTED = ["A1 real arithmetic", "A3 builtins", "A5 attribute resolution", "A6 solvers"]
-EXPLANATION = ('Deductive: natural_mass_ratio (loop over atoms cut at two SumOver invariants; ions and isotope ions), the natural_density getter/setter pair (density = natural density / ratio and back), Formula.__init__ (density precedence, single-atom default), util.cell_volume (all parameter forms, defaulted angles, TypeError without lengths), Formula.volume (packing-factor and lattice routes), _isotope_substitution (counts, density scales with the mass, unknown density stays unknown) and Formula.replace are executed from the working tree. Bounded tasks re-check density / replace / volume natively, including assignment orders on one object and the special-angle grid.')
+EXPLANATION = ('Deductive: natural_mass_ratio (loop over atoms cut at two SumOver invariants; ions and isotope ions), the natural_density getter/setter pair (density = natural density / ratio and back), Formula.__init__ (density precedence, single-atom default), util.cell_volume (all parameter forms, defaulted angles, TypeError without lengths), Formula.volume (packing-factor and lattice routes), formula() for every kind of initializer with density= or natural_density= (the keyword reaches Formula.__init__ / the parsed object), _isotope_substitution (counts, density scales with the mass, unknown density stays unknown) and Formula.replace are executed from the working tree. Bounded tasks re-check density / replace / volume natively, including assignment orders on one object and the special-angle grid.')
 
 
 def units(tier):
